@@ -82,6 +82,11 @@ def units(tier):
                 us.append({"name": f"huge_{what}_{vn}_{side}_{pre}", "shape": {"kind": "huge", "what": what, "value": vn, "side": side, "pre": pre}})
     for side, pre in (("client", "search"), ("server", "fresh")):
         us.append({"name": f"batch_{side}", "shape": {"kind": "batch", "n": 1500, "side": side, "pre": pre}})
+    for what in ("notice", "ext_response", "ext_request", "bind_request", "search_done"):
+        for chn, phases in (("a", (0,)), ("e", (0, 1)), ("k", (0, 1, 2)), ("s", (0, 1, 2, 3))):
+            for ph in phases:
+                for side, pre in (("client", "search"), ("server", "opened")):
+                    us.append({"name": f"longtext_{what}_{chn}{ph}_{side}", "shape": {"kind": "longtext", "what": what, "ch": chn, "phase": ph, "side": side, "pre": pre}})
     # prior session histories: two application calls (accepted or refused), then a delivered
     # message of every kind whose id is symbolic
     import itertools
@@ -153,6 +158,24 @@ def body(ctx, shape):
         r = common.checked_receive(ctx, sess_, side, data)
         if r[0] == "ok":
             ctx.require(len(r[1]) == total, "long-delivery-did-not-return-every-message")
+        return
+    if kind == "longtext":
+        # long peer-controlled text (thousands of octets, characters of 1-4 octets at every phase):
+        # whatever the session does with it - echo it in an error text, truncate it for a notice -
+        # only a list or ProtocolError may come out, and an attached notification is well-formed
+        M = ctx.L.messages
+        ch = {"a": "a", "e": "\u00e9", "k": "\u20ac", "s": "\U0001f600"}[shape["ch"]]
+        text = ("a" * shape["phase"]) + ch * 700
+        R = M.LDAPResult(M.LDAPResultCode.UNAVAILABLE, text, text)
+        msgs_ = {
+            "notice": M.ExtendedResponse(0, [], R, common.NOTICE_OID.decode(), None),
+            "ext_response": M.ExtendedResponse(1, [], R, text, None),
+            "ext_request": M.ExtendedRequest(1, [], text, None),
+            "bind_request": M.BindRequest(1, [], 3, text, ctx.L.auth.SimpleCredential(text)),
+            "search_done": M.SearchResultDone(1, [], R),
+        }
+        data = bytes(msgs_[shape["what"]].pack(M.PackingOptions()))
+        common.checked_receive(ctx, common.make_session(ctx, side, pre), side, data)
         return
     if kind == "huge":
         # integers far beyond any machine word (ids, result codes, limits of thousands of octets):
